@@ -1,4 +1,6 @@
 import Mouette.Lemmas.AttrRun
+import Mouette.Lemmas.AttrHandlesRun
+import Mouette.Lemmas.AttrHandlesTotal
 import Mouette.Generated.C05
 /-
 C05 — attributes are total maps with defaults; sparse and dense storage agree.
@@ -227,5 +229,162 @@ example : runObs true (init 3) [.create .int 1 none, .get 3, .set 3 (.sc (.i 1))
 /-- the in-place update of a read default (sparse, vector) leaves the other unset entries at the default -/
 example : runObs false (init 2) [.create .int 3 none, .upd 1 1 (.i (-1)), .get 0, .asArray]
     = [.ok, .ok, .val [.i 0, .i 0, .i 0], .arr [[.i 0, .i 0, .i 0], [.i 0, .i 0, .i 0]]] := by rfl
+
+/-! ## round 2: reads that stay alive (stale handles) and write-side aliasing
+
+Extended model `Mouette.Attr.step2` (Model/AttrHandles.lean): `hold i` keeps the object `a[i]` evaluates to, `updH h c x`
+updates it in place later (after any writes / growth / clear / re-creation), `setFromRead i j` is `a[j] = a[i]`,
+`setShared v keys` writes ONE caller vector under several keys and lets the caller update it afterwards.
+`Held.orig` records (ghost) the entry a handle was read from; it is `none` for caller vectors and for reads made before
+the attribute object or its storage was replaced (`create`, `delete`, container `clear`, `attr.clear()`). -/
+
+/-- P0 `dense_refines_ext`: every script of base AND extended operations on the dense storage is matched by the extended
+total-map specification: in particular an update through a handle read from entry `i` leaves every other entry's
+answers as specified, `a[j] = a[i]` and shared-vector writes behave like independent writes -/
+theorem dense_refines_ext (n0 : Nat) (ops : List Op2) :
+    Forall2 Matches2 (specRun2 (specInit2 n0) ops) (run2 true (init2 n0) ops) :=
+  refines2_aux true ops _ _ (goodR_init true n0) (fun h => by cases h)
+
+/-- P0 `sparse_refines_ext`: the same for the sparse storage on well-indexed scripts -/
+theorem sparse_refines_ext (n0 : Nat) (ops : List Op2) (hw : wellIndexed2 n0 ops = true) :
+    Forall2 Matches2 (specRun2 (specInit2 n0) ops) (run2 false (init2 n0) ops) :=
+  refines2_aux false ops _ _ (goodR_init false n0) (fun _ => hw)
+
+/-- P0 `sparse_dense_agree_ext`: on the same well-indexed extended script both storages give observations allowed by one
+common specification observation (equal wherever the specification is determined) -/
+theorem sparse_dense_agree_ext (n0 : Nat) (ops : List Op2) (hw : wellIndexed2 n0 ops = true) :
+    Forall2 (fun o1 o2 => ∃ so, Matches2 so o1 ∧ Matches2 so o2) (run2 false (init2 n0) ops) (run2 true (init2 n0) ops) :=
+  forall2_common2 (sparse_refines_ext n0 ops hw) (dense_refines_ext n0 ops)
+
+/-- P0 `sparse_dense_agree_ext_eq`: on a well-indexed extended script without in-place updates (`upd`, `updH`) — but with
+reads kept alive, `a[j] = a[i]` and shared-vector writes — sparse and dense observations are literally EQUAL -/
+theorem sparse_dense_agree_ext_eq (n0 : Nat) (ops : List Op2) (hw : wellIndexed2 n0 ops = true) (hmf : mutFree2 ops = true) :
+    run2 false (init2 n0) ops = run2 true (init2 n0) ops :=
+  forall2_unique2 (specRun2_total ops _ hmf (fun ta h => by cases h)) (sparse_refines_ext n0 ops hw) (dense_refines_ext n0 ops)
+
+/-- P0 `read_isolated_ext` (stale handles, write-side aliasing): after ANY extended script, in either storage mode, an
+in-place update through ANY registered read result — however old, whatever writes (`a[j] = a[i]`, one vector under
+several keys), growth, clear or re-creation happened since — changes what NO entry `j ≥ 0` reads other than the entry
+the handle was read from, and keeps the storage invariant -/
+theorem read_isolated_ext (dense : Bool) (n0 : Nat) (ops : List Op2) :
+    let s := final2 dense (init2 n0) ops
+    ∀ hl ∈ s.held, ∀ hd, hl.hd = some hd → ∀ a, s.st.attr = some a → ∀ (c : Nat) (x : Scalar),
+      StoreOk (mutate s.st.heap hd c x) s.st.size a ∧
+      ∀ j : Int, 0 ≤ j → hl.orig ≠ some j →
+        read { s.st with heap := mutate s.st.heap hd c x } a j = read s.st a j := by
+  intro s hl hmem hd hhd a ha c x
+  have hg : Good2 dense s := good2_final dense ops _ (good2_init dense n0)
+  refine ⟨storeOk_mutate hd c x (hg.inv a ha), ?_⟩
+  intro j hj hne
+  rw [read_eq, read_eq]; simp only
+  rw [mutate_isolated c x (hg.inv a ha) ((hg.hinv hl hmem).2 a ha) hhd j hj hne]
+
+/-- P0 `read_isolated_after_writes`: the atomic form (`v = a[i]; v[c] = x`) also holds after any extended script, i.e.
+after `a[j] = a[i]` and after one vector was written under several keys -/
+theorem read_isolated_after_writes (dense : Bool) (n0 : Nat) (ops : List Op2) :
+    let s := (final2 dense (init2 n0) ops).st
+    ∀ a, s.attr = some a → ∀ (i : Int) (s' : State) (hd : Handle) (v : Val), get s a i = .ok (s', hd, v) →
+      ∀ (c : Nat) (x : Scalar) (j : Int), j ≠ i → 0 ≤ j →
+        read { s' with heap := mutate s'.heap hd c x } a j = read s a j := by
+  intro s a ha i s' hd v hg c x j hji hj
+  have hinv : Inv s := (good2_final dense ops _ (good2_init dense n0)).inv
+  obtain ⟨_, _, _, _, _, hmu⟩ := get_spec (hinv a ha) hg
+  rw [read_eq, read_eq]; simp only
+  rw [(hmu c x).2 j hji hj]
+
+/-- P0 `caller_vector_isolated`: the vector the caller wrote under several keys is NOT shared with the attribute: after
+`setShared (vec l) keys` (from any reachable state) updating the caller's vector in place changes no entry at all -/
+theorem caller_vector_isolated (dense : Bool) (n0 : Nat) (ops : List Op2) (l : List Scalar) (keys : List Int) :
+    let s := final2 dense (init2 n0) ops
+    let s' := (step2 dense s (.setShared (.vec l) keys)).1
+    s.st.attr ≠ none →
+    ∀ a', s'.st.attr = some a' → ∀ (c : Nat) (x : Scalar) (j : Int), 0 ≤ j →
+      read { s'.st with heap := mutate s'.st.heap (.whole s.st.heap.length) c x } a' j = read s'.st a' j := by
+  intro s s' hne a' ha' c x j hj
+  have hg : Good2 dense s := good2_final dense ops _ (good2_init dense n0)
+  have hg' : Good2 dense s' := good2_step dense s _ hg
+  have hmem : ({ orig := none, hd := some (.whole s.st.heap.length) } : Held) ∈ s'.held := by
+    show _ ∈ (step2 dense s (.setShared (.vec l) keys)).1.held
+    simp only [step2]
+    cases ha : s.st.attr with
+    | none => exact absurd ha hne
+    | some a => simp
+  rw [read_eq, read_eq]; simp only
+  rw [mutate_isolated c x (hg'.inv a' ha') ((hg'.hinv _ hmem).2 a' ha') rfl j hj (by simp)]
+
+/-- P0 `dense_handle_stale_after_growth` (what the code does): the dense storage REPLACES its matrix when the container
+grows (`np.concatenate`), so after `append` / `+=` every read result obtained before — row views of the old matrix —
+is dead: updating it in place changes NO entry, not even the one it was read from -/
+theorem dense_handle_stale_after_growth (n0 : Nat) (ops : List Op2) (m : Nat) :
+    let s := final2 true (init2 n0) ops
+    ∀ hl ∈ s.held, ∀ hd, hl.hd = some hd → ∀ a, s.st.attr = some a → ∀ (c : Nat) (x : Scalar),
+      ∃ a', (grow s.st m).attr = some a' ∧ ∀ j : Int, 0 ≤ j →
+        read { (grow s.st m) with heap := mutate (grow s.st m).heap hd c x } a' j = read (grow s.st m) a' j := by
+  intro s hl hmem hd hhd a ha c x
+  have hg : Good2 true s := good2_final true ops _ (good2_init true n0)
+  obtain ⟨a', h1, h2⟩ := dense_grow_dead m hg.inv hg.mode ha hd ((hg.hinv hl hmem).1 hd hhd) c x
+  refine ⟨a', h1, ?_⟩
+  intro j hj
+  rw [read_eq, read_eq]; simp only
+  rw [h2 j hj]
+
+/-- a value read from the attribute re-validates to itself (`a[j] = a[i]` stores the value of entry `i`), arity ≥ 1 -/
+theorem checkVal_idem (ty : Ty) (k : Nat) (hk : 1 ≤ k) (v : InVal) (w : Val) (h : checkVal ty k v = .ok w) :
+    checkVal ty k (toInVal k w) = .ok w := by
+  have hcast : ∀ x : Scalar, canCast x.ty ty = true → canCast (castTo ty x).ty ty = true ∧ castTo ty (castTo ty x) = castTo ty x := by
+    intro x; cases ty <;> cases x <;> simp [canCast, castTo, Scalar.ty]
+  cases v with
+  | sc x =>
+    simp only [checkVal] at h
+    by_cases hk1 : k > 1
+    · rw [if_pos hk1] at h; cases h
+    · rw [if_neg hk1] at h
+      by_cases hc : canCast x.ty ty = true
+      · rw [if_pos hc] at h; injection h with h; subst h
+        simp only [toInVal, hk1, if_false, checkVal]
+        rw [if_pos (hcast x hc).1, (hcast x hc).2]
+      · rw [if_neg hc] at h; cases h
+  | vec l =>
+    simp only [checkVal] at h
+    by_cases hk1 : k > 1
+    · rw [if_pos hk1] at h
+      by_cases hl : l.length ≠ k
+      · rw [if_pos hl] at h; cases h
+      · rw [if_neg hl] at h
+        by_cases hall : l.all (fun x => canCast x.ty ty) = true
+        · rw [if_pos hall] at h; injection h with h; subst h
+          simp only [toInVal, hk1, if_true, checkVal, List.length_map]
+          rw [if_neg hl]
+          have h2 : (l.map (castTo ty)).all (fun x => canCast x.ty ty) = true := by
+            rw [List.all_eq_true] at hall ⊢
+            intro y hy; rw [List.mem_map] at hy; obtain ⟨x0, hx0, rfl⟩ := hy
+            exact (hcast x0 (hall x0 hx0)).1
+          rw [if_pos h2, List.map_map]
+          congr 1
+          apply List.map_congr_left
+          intro x0 hx0
+          rw [List.all_eq_true] at hall
+          exact (hcast x0 (hall x0 hx0)).2
+        · rw [if_neg hall] at h; cases h
+    · rw [if_neg hk1] at h; cases h
+
+/-- non-vacuity (a test): one vector written under two keys, `a[2] = a[0]`, then in-place updates through a handle read
+before, through the caller's vector and through a fresh read: only the entry read changes, in both storages -/
+example :
+    let ops : List Op2 := [.base (.create .int 2 none), .setShared (.vec [.i 1, .i 2]) [0, 1], .setFromRead 0 2,
+      .hold 0, .updH 1 0 (.i 9), .updH 0 1 (.i 7), .base (.upd 2 0 (.i 5)), .base (.get 1), .base .asArray]
+    wellIndexed2 3 ops = true ∧
+    run2 false (init2 3) ops = [.ok, .ok, .ok, .val [.i 1, .i 2], .ok, .ok, .ok, .val [.i 1, .i 2],
+      .arr [[.i 9, .i 2], [.i 1, .i 2], [.i 5, .i 2]]] ∧
+    run2 true (init2 3) ops = run2 false (init2 3) ops := by
+  refine ⟨by decide, by rfl, by rfl⟩
+
+/-- dense: a row view taken before growth is dead afterwards; the sparse object stays live (a test) -/
+example :
+    let ops : List Op2 := [.base (.create .int 2 none), .base (.set 0 (.vec [.i 1, .i 2])), .hold 0, .base .append,
+      .updH 0 0 (.i 9), .base (.get 0)]
+    (run2 true (init2 1) ops).getLast? = some (.val [.i 1, .i 2]) ∧
+    (run2 false (init2 1) ops).getLast? = some (.val [.i 9, .i 2]) := by
+  refine ⟨by rfl, by rfl⟩
 
 end Mouette.Props.C05
